@@ -1049,3 +1049,156 @@ pub fn place_leg(args: &Args) {
     rep.note("exhaustive for all subsets of the two 5-id pools x rf {1,2,3,6} x vnodes {1,3,150} with every insertion permutation (over the shards together); larger memberships, histories, keys and batches are sampled");
     rep.finish(args);
 }
+
+
+// ------------------------------------------------------------------------------------------------
+// The production sender: GossipManager::start_gossip_loop over loopback TCP. The loop turns the router's targets
+// (replica ids) into addresses through its own index -> replica-id map of `config.peers`; a delta reaches an owner
+// only if that map agrees with the cluster layout (peers = all other replicas in ascending id order, as
+// ReplicationConfig::new_partitioned_cluster documents and GossipRouter::from_config assumes).
+
+async fn tcp_case(n: u64, rf: usize, sender: u64, keys: &[String]) -> Result<Vec<(String, u64, &'static str)>, String> {
+    use redis_sim::production::GossipManager;
+    use tokio::io::AsyncReadExt;
+    use tokio::net::TcpListener;
+    let others: Vec<u64> = (1..=n).filter(|i| *i != sender).collect();
+    let mut listeners = vec![];
+    let mut addrs = vec![];
+    for _ in &others {
+        let l = TcpListener::bind("127.0.0.1:0").await.map_err(|e| format!("bind: {}", e))?;
+        addrs.push(l.local_addr().map_err(|e| e.to_string())?.to_string());
+        listeners.push(l);
+    }
+    let mut rcfg = ReplicationConfig::new_partitioned_cluster(sender, addrs.clone(), rf);
+    rcfg.gossip_interval_ms = 15;
+    let members: Vec<u64> = (1..=n).collect();
+    let ring = Arc::new(RwLock::new(HashRing::new(rid(&members), rcfg.virtual_nodes_per_physical, rcfg.replication_factor)));
+    let router = GossipRouter::from_config(&rcfg, ring.clone());
+    let state = Arc::new(parking_lot::RwLock::new(GossipState::with_router(rcfg.clone(), router)));
+    let me = ReplicaId::new(sender);
+    let deltas: Vec<ReplicationDelta> = keys.iter().enumerate().map(|(i, k)| ReplicationDelta::new(k.clone(), ReplicatedValue::with_value(SDS::from_str("v"), LamportClock { time: i as u64 + 1, replica_id: me }), me)).collect();
+    let once = Arc::new(std::sync::Mutex::new(Some(deltas)));
+    let feeder = once.clone();
+    let sender_task = tokio::spawn(GossipManager::start_gossip_loop(rcfg.clone(), state, move || feeder.lock().unwrap().take().unwrap_or_default()));
+    // what arrived where: (peer id, key)
+    let got: Arc<std::sync::Mutex<BTreeSet<(u64, String)>>> = Arc::new(std::sync::Mutex::new(BTreeSet::new()));
+    let progress = Arc::new(std::sync::atomic::AtomicU64::new(0));
+    let mut readers = vec![];
+    for (l, pid) in listeners.into_iter().zip(others.iter().copied()) {
+        let (got, progress) = (got.clone(), progress.clone());
+        readers.push(tokio::spawn(async move {
+            while let Ok((mut sock, _)) = l.accept().await {
+                let (got, progress) = (got.clone(), progress.clone());
+                tokio::spawn(async move {
+                    loop {
+                        let mut len = [0u8; 4];
+                        if sock.read_exact(&mut len).await.is_err() {
+                            return;
+                        }
+                        let mut buf = vec![0u8; u32::from_be_bytes(len) as usize];
+                        if sock.read_exact(&mut buf).await.is_err() {
+                            return;
+                        }
+                        if let Ok(m) = GossipMessage::deserialize(&buf) {
+                            let ds = match m {
+                                GossipMessage::TargetedDelta { deltas, .. } | GossipMessage::DeltaBatch { deltas, .. } => deltas,
+                                _ => vec![],
+                            };
+                            let mut g = got.lock().unwrap();
+                            for d in ds {
+                                g.insert((pid, d.key));
+                            }
+                            progress.fetch_add(1, std::sync::atomic::Ordering::Relaxed);
+                        }
+                    }
+                });
+            }
+        }));
+    }
+    let r = ring.read().unwrap();
+    let expect: BTreeSet<(u64, String)> = keys.iter().flat_map(|k| ids(&r.get_replicas(k)).into_iter().filter(|o| *o != sender).map(move |o| (o, k.clone()))).collect();
+    drop(r);
+    // wait until everything expected is there, or nothing new has arrived for 3 s (the loop ticks every 15 ms)
+    let mut last = (0u64, std::time::Instant::now());
+    loop {
+        tokio::time::sleep(std::time::Duration::from_millis(20)).await;
+        let have = got.lock().unwrap().clone();
+        if expect.is_subset(&have) {
+            // one more tick for stragglers to non-owners
+            tokio::time::sleep(std::time::Duration::from_millis(60)).await;
+            break;
+        }
+        let p = progress.load(std::sync::atomic::Ordering::Relaxed);
+        if p != last.0 {
+            last = (p, std::time::Instant::now());
+        } else if last.1.elapsed().as_secs() >= 3 {
+            break;
+        }
+    }
+    sender_task.abort();
+    readers.iter().for_each(|h| h.abort());
+    let have = got.lock().unwrap().clone();
+    let mut out = vec![];
+    for (o, k) in expect.difference(&have) {
+        out.push((k.clone(), *o, "owner-starved"));
+    }
+    for (o, k) in have.difference(&expect) {
+        out.push((k.clone(), *o, "sent-to-non-owner"));
+    }
+    Ok(out)
+}
+
+pub fn tcp_leg(args: &Args) {
+    let mut rep = Report::new("C19", "tcp");
+    let rt = tokio::runtime::Builder::new_multi_thread().worker_threads(2).enable_all().build().unwrap();
+    let mut rng = args.rng(193);
+    let keys: Vec<String> = (0..40).map(|i| format!("user:{}:profile", i)).chain(corner_keys().into_iter().filter(|k| !k.is_empty()).take(10)).collect();
+    let mut idx = 0usize;
+    let mut unavailable = None;
+    for n in [2u64, 3, 4, 5] {
+        for rf in 1..=(n as usize) {
+            for sender in 1..=n {
+                idx += 1;
+                if idx % args.shards != args.shard || (!args.thorough() && rng.gen_ratio(1, 2)) {
+                    continue;
+                }
+                rep.evaluations += 1;
+                rep.distinct(&("tcp", n, rf, sender));
+                let mut res = rt.block_on(tcp_case(n, rf, sender, &keys));
+                if matches!(&res, Ok(v) if !v.is_empty()) {
+                    // a slow machine must not look like a starved owner: a discrepancy has to show twice
+                    let again = rt.block_on(tcp_case(n, rf, sender, &keys));
+                    if matches!(&again, Ok(v) if v.is_empty()) {
+                        rep.count("tcp:discrepancy_not_reproduced");
+                        res = again;
+                    }
+                }
+                match res {
+                    Err(e) => {
+                        unavailable = Some(e);
+                        break;
+                    }
+                    Ok(v) => {
+                        rep.count("tcp:senders");
+                        rep.add("tcp:deltas_routed", keys.len() as u64);
+                        if let Some((k, o, kind)) = v.first() {
+                            let first_or_last = if sender == 1 { "sender=first" } else if sender == n { "sender=last" } else { "sender=middle" };
+                            rep.violation(
+                                format!("C19|GossipManager::start_gossip_loop|{}|{}", kind, first_or_last),
+                                format!("{} nodes rf {} sender {}: key {} and node {} ({} discrepancies in this batch of {}): the loop's peer-index -> replica-id map does not address every owner", n, rf, sender, show(k), o, v.len(), keys.len()),
+                                json!({"check": "tcp", "n": n, "rf": rf, "sender": sender}),
+                            );
+                        }
+                    }
+                }
+            }
+        }
+    }
+    if let Some(e) = unavailable {
+        // no loopback networking in this sandbox: the leg says so and does not judge
+        rep.note(format!("loopback TCP unavailable ({}); the production gossip loop was not exercised", e));
+        rep.count("tcp:unavailable");
+    }
+    rep.note("case = one (cluster size, rf, sender): GossipManager::start_gossip_loop with a selective GossipState sends 50 deltas over loopback TCP to one listener per peer; every owner other than the sender must receive the delta, nobody else");
+    rep.finish(args);
+}
